@@ -108,6 +108,9 @@ VIEWS = [
     ('total > GLOB', lambda s: s['total'] > 40),
     ('total > CapGlob', lambda s: s['total'] > 40),
     ('total > capglob + low', lambda s: s['total'] > 140, ['Low = 100']),
+    # a later variable of the view uses an earlier one
+    ('total > lim2', lambda s: s['total'] > 900, ['base = 100', 'lim2 = base * 9']),
+    ('total > step3', lambda s: s['total'] > 41, ['step1 = glob', 'Step2 = step1 + 1', 'step3 = STEP2']),
 ]
 
 
